@@ -21,7 +21,8 @@ RULE = ("for every (input dtype, output dtype) pair: alphabet = {input "
         "each also +-1, +-0.5 and its neighbours in the input lattice, "
         "restricted to values the input type represents exactly; evaluated "
         "(a) all together in one array in 6 layouts (C, Fortran, strided, "
-        "read-only, reversed, empty) and (b) each value alone; both "
+        "read-only, reversed, empty, big-endian dtype, big-endian array with a "
+        "native-dtype transformer) and (b) each value alone; both "
         "preserve_input modes. One evaluation = one array element converted; "
         "non-trivial = the value is not preserved verbatim (needs rounding "
         "or saturation) or lies outside [-1, 1].")
@@ -38,7 +39,8 @@ HOW_TO_READ = ("case: get_chunk_dtype_transformer(in, out)(array(values) in "
 IN_TYPES = ["int8", "uint8", "int16", "uint16", "int32", "uint32", "int64",
             "uint64", "float32", "float64"]
 OUT_TYPES = ["uint8", "uint16", "uint32", "uint64", "float32"]
-LAYOUTS = ["contig", "fortran", "strided", "readonly", "reversed", "empty"]
+LAYOUTS = ["contig", "fortran", "strided", "readonly", "reversed", "empty",
+           "bigendian", "bigendian-array-only"]
 
 
 def _limits(t):
@@ -108,6 +110,9 @@ def _layout(arr1d, layout):
     elif layout == "reversed":
         a = arr1d.copy()[::-1].reshape(1, 1, 1, n)
         idx = idx[::-1]
+    elif layout in ("bigendian", "bigendian-array-only"):
+        # non-native byte order (data read from a big-endian file)
+        a = arr1d.astype(arr1d.dtype.newbyteorder(">")).reshape(1, 1, 1, n)
     else:
         raise ValueError(layout)
     return a, idx
@@ -146,7 +151,9 @@ def _evaluate(col, tin, tout, preserve, layout, values):
     n_elems = max(1, len(idx))
     with np.errstate(all="ignore"):
         try:
-            tr = get_chunk_dtype_transformer(tin, tout, warn=False)
+            tr = get_chunk_dtype_transformer(
+                np.dtype(tin).newbyteorder(">") if layout == "bigendian"
+                else tin, tout, warn=False)
             res = tr(a, preserve_input=preserve)
         except Exception as exc:
             col.ev(n_elems, n_elems, "exception")
@@ -156,7 +163,7 @@ def _evaluate(col, tin, tout, preserve, layout, values):
                              else "writable-input"),
                           case, "converted array", repr(exc)[:300])
             return
-    if res.dtype != np.dtype(tout) or res.shape != a.shape:
+    if res.dtype.newbyteorder("=") != np.dtype(tout) or res.shape != a.shape:
         col.ev(n_elems, 0, "bad-result-type")
         col.violation("C11/result-dtype-or-shape", case,
                       "%s %r" % (tout, a.shape),
